@@ -351,6 +351,54 @@ fn check_props(d: &hook::Dump, t: &hook::TypeDump, script: &str, rep: &mut Repor
             }
         }
     }
+    // (2b) location is compositional: the offset of a nested path is the offset
+    //      of its prefix plus the offset of the last step inside the prefix's type
+    {
+        let find = |ty: usize, path: &[hook::Step]| -> Option<u64> {
+            d.types[ty].paths.iter().find(|(p, _)| p.as_slice() == path).and_then(|(_, r)| match r {
+                Ok(Some(o)) => Some(*o as u64),
+                _ => None,
+            })
+        };
+        let child_of = |ty: usize, step: &hook::Step| -> Option<usize> {
+            match (&d.types[ty].node, step.0) {
+                (hook::Node::Record(fs), None) => fs.get(step.1).map(|f| f.1),
+                (hook::Node::Enum(vs), Some(v)) => vs.get(v).and_then(|x| x.1.get(step.1)).copied(),
+                _ => None,
+            }
+        };
+        for (p, r) in &t.paths {
+            if p.len() < 2 {
+                continue;
+            }
+            let Ok(Some(off)) = r else { continue };
+            let (prefix, last) = p.split_at(p.len() - 1);
+            let mut ty = t.id;
+            let mut ok = true;
+            for st in prefix {
+                match child_of(ty, st) {
+                    Some(c) => ty = c,
+                    None => {
+                        ok = false;
+                        break;
+                    }
+                }
+            }
+            if !ok {
+                continue;
+            }
+            if let (Some(a), Some(b)) = (find(t.id, prefix), find(ty, last)) {
+                if a + b != *off as u64 {
+                    viol(
+                        rep,
+                        "Lowerer::location of a nested path is not the sum of the offsets of its steps",
+                        "nested-offset",
+                        input(json!({"path": path_str(p), "location": off, "prefix": a, "last_step": b})),
+                    );
+                }
+            }
+        }
+    }
     // (3) the independently computed offsets agree (records whose fields are all inhabited,
     //     enums variant by variant in order)
     let loc: Vec<u64> = t
